@@ -463,7 +463,9 @@ type linkRelay struct {
 type pairCfg struct {
 	Pool      int      `json:"pool"`      // configured pool size (both ends)
 	MaxAB     int      `json:"max_ab"`    // B's max message size = A's peer max (0 = unlimited)
-	Important bool     `json:"important"` // both ends advertise EnableImportantDelivery
+	Important bool     `json:"important"` // B (the receiver of the traffic) advertises EnableImportantDelivery; A too unless ANoImp
+	ANoImp    bool     `json:"a_no_imp,omitempty"` // A advertises EnableImportantDelivery = false: irrelevant for A -> B traffic
+	// (A sets the flag by what B announced, B acknowledges by what B itself announced)
 	Policy    string   `json:"policy"`    // chunking A->B
 	Cache     bool     `json:"cache"`     // atom cache entries for some names
 	Seed      int64    `json:"seed"`
@@ -499,6 +501,10 @@ func newPair(cfg pairCfg) (*pair, error) {
 	p.coreB = newFakeCore(nodeB, creationB, nodeA, creationA)
 	p.logA, p.logB = &nolog{}, &nolog{}
 	flags := gen.NetworkFlags{Enable: true, EnableImportantDelivery: cfg.Important}
+	flagsA := flags
+	if cfg.ANoImp {
+		flagsA.EnableImportantDelivery = false
+	}
 	optsA := handshake.ConnectionOptions{PoolSize: cfg.Pool}
 	optsB := handshake.ConnectionOptions{PoolSize: cfg.Pool, PoolDSN: cfg.PoolDSN}
 	if cfg.Cache {
@@ -512,13 +518,13 @@ func newPair(cfg pairCfg) (*pair, error) {
 	}
 	var err error
 	p.connA, err = proto.Create().NewConnection(p.coreA, gen.HandshakeResult{
-		ConnectionID: "cid", Peer: nodeB, PeerCreation: creationB, PeerFlags: flags, NodeFlags: flags,
+		ConnectionID: "cid", Peer: nodeB, PeerCreation: creationB, PeerFlags: flags, NodeFlags: flagsA,
 		PeerMaxMessageSize: cfg.MaxAB, NodeMaxMessageSize: 0, Custom: optsA}, p.logA)
 	if err != nil {
 		return nil, err
 	}
 	p.connB, err = proto.Create().NewConnection(p.coreB, gen.HandshakeResult{
-		ConnectionID: "cid", Peer: nodeA, PeerCreation: creationA, PeerFlags: flags, NodeFlags: flags,
+		ConnectionID: "cid", Peer: nodeA, PeerCreation: creationA, PeerFlags: flagsA, NodeFlags: flags,
 		PeerMaxMessageSize: 0, NodeMaxMessageSize: cfg.MaxAB, Custom: optsB}, p.logB)
 	if err != nil {
 		return nil, err
